@@ -12,15 +12,19 @@ for m in sorted(glob.glob(os.path.join(ROOT, "seeded", "*", "meta.json"))):
     rows.append("| %s | %s | %s | %s |" % (sid, title[:110], det.get("status", "?"), how[:420]))
 n = len(rows)
 late = sum(1 for r in rows if "after strengthening" in r)
+missed = sum(1 for r in rows if "| missed" in r)
+other = sum(1 for r in rows if "(by ./check" in r)
 text = "### 0.6 Seeded changes and the checks that catch them\n\n" \
        "%d changes written by independent sub-agents (property text and a scratch worktree only), each confirmed by me\n" \
        "(applies, builds, the touched packages' tests pass, its demonstration fails with it and passes without it) and\n" \
        "kept under /verif/seeded/<id>/ (patch.diff, demonstration, meta.json). %d of them were only caught after the\n" \
        "machinery was strengthened; what was added is in the last column. The check of the change's own property\n" \
-       "(`./check <id> quick`) is the one that catches it, with two exceptions marked in the status column: C04-w3m2 breaks\n" \
-       "the retry clause of C05 and C07-w3m2 the no-leftover-sockets clause of C08, and it is those checks that report them.\n" \
-       "The how column is cut at 420 characters; the full text is in the meta.json.\n\n" \
-       "| id | change | status | caught by (oracle [signature]) |\n|---|---|---|---|\n" % (n, late) + "\n".join(rows) + "\n\n"
+       "(`./check <id> quick`) is the one that catches it, except for %d changes that were written against one property\n" \
+       "but break a clause of another (status `caught (by ./check ...)`: it is that check which reports them). %d\n" \
+       "changes are not caught; each row says why (one is dead code under the Go release the harness has to use, one\n" \
+       "stopped breaking the property when a defect next to it was fixed, two would need oracles or failure\n" \
+       "injections I decided against). The how column is cut at 420 characters; the full text is in the meta.json.\n\n" \
+       "| id | change | status | caught by (oracle [signature]) |\n|---|---|---|---|\n" % (n, late, other, missed) + "\n".join(rows) + "\n\n"
 p = os.path.join(ROOT, "DESIGN.md")
 s = open(p).read()
 if "### 0.6 Seeded changes" in s:
